@@ -28,17 +28,19 @@ var safetyKinds = map[string]bool{"nil-deref": true, "nil-arg": true, "nil-elem"
 	"boxed-nil": true, "nil-capture": true}
 
 type PropConfig struct {
-	ID          string   `json:"id"`
-	Safety      bool     `json:"safety"`
-	LockCheck   bool     `json:"lock_check"`
-	ExtraFuncs  []string `json:"extra_functions"`
-	Disciplines []string `json:"disciplines"`
-	ClosureOf   []string `json:"closure_of"` // add the package-local call-graph closure of these roots
-	Kinds       []string `json:"kinds"`      // keep only obligations of these kinds (plus vacuity)
-	Exclude     []string `json:"exclude_functions"`
-	NotDecided  []string `json:"not_decided"`
-	Assumptions []string `json:"assumptions"`
-	TimeoutMs   int      `json:"timeout_ms"`
+	ID             string   `json:"id"`
+	Safety         bool     `json:"safety"`
+	LockCheck      bool     `json:"lock_check"`
+	GuardStructs   []string `json:"guard_structs"`
+	GuardAccessors bool     `json:"guard_accessors"` // verify (lock-check mode) every function that accesses a guarded field
+	ExtraFuncs     []string `json:"extra_functions"`
+	Disciplines    []string `json:"disciplines"`
+	ClosureOf      []string `json:"closure_of"` // add the package-local call-graph closure of these roots
+	Kinds          []string `json:"kinds"`      // keep only obligations of these kinds (plus vacuity)
+	Exclude        []string `json:"exclude_functions"`
+	NotDecided     []string `json:"not_decided"`
+	Assumptions    []string `json:"assumptions"`
+	TimeoutMs      int      `json:"timeout_ms"`
 }
 
 type EvObl struct {
@@ -130,6 +132,20 @@ func runCheck(id, repo, verif, tier string, seed int, freeze bool, keep string, 
 			}
 		}
 	}
+	if cfg.GuardAccessors {
+		inKeys := map[string]bool{}
+		for _, k := range keys {
+			inKeys[k] = true
+		}
+		for k, fn := range d.fns {
+			if inKeys[k] || contains(cfg.Exclude, k) || strings.HasPrefix(k, "init@") || strings.HasSuffix(prog_file(d, fn), "_test.go") {
+				continue
+			}
+			if d.accessesGuarded(k, fn) {
+				keys = append(keys, k)
+			}
+		}
+	}
 	autoAdded := map[string]bool{}
 	if cfg.Safety {
 		// field invariants are sound only if every store in the package is checked: functions outside the
@@ -188,6 +204,8 @@ func runCheck(id, repo, verif, tier string, seed int, freeze bool, keep string, 
 		switch disc {
 		case "header-name":
 			fvcs = append(fvcs, d.DisciplineHeaderName())
+		case "guards":
+			fvcs = append(fvcs, d.DisciplineGuards(cfg.GuardStructs))
 		default:
 			engineErrs = append(engineErrs, "unknown discipline "+disc)
 		}
